@@ -122,7 +122,7 @@ def run(ctx: Ctx) -> int:
 			# the diamond a -> {b, c} -> d
 			f_diamond = tex.submit(edge_stage, 'Diamond', 'TranpD_runner_sound.cfg', 'TranpD_runner_edges4.cfg' if quick else 'TranpD_runner_edges5.cfg')
 			# the pair b -> c with a third variant: the top module edited to a BLANK source (and back)
-			f_pair = tex.submit(edge_stage, 'Pair', None, 'TranpP_runner_edges4.cfg' if quick else 'TranpP_runner_edges5.cfg')
+			f_pair = tex.submit(edge_stage, 'PairLong', None, 'TranpP_runner_edges4.cfg' if quick else 'TranpP_runner_edges5.cfg')
 			# long behaviours: random walks chosen by TLC, replayed step by step through the real runner
 			f_walk = tex.submit(walk_stage)
 			replay, dreplay, preplay, wreplay = f_chain.result(), f_diamond.result(), f_pair.result(), f_walk.result()
